@@ -661,6 +661,32 @@ func loadStartsAfterPosition(m *convergeModel, ld *ssa.Call) (bool, int) {
 			}
 		}
 	}
+	// … through an accessor of the position that other places use too (local.next() called for the limit context as well)
+	if !okStart && start != nil {
+		if u := deepUnfold(cv(start)); true {
+			if debugOn() {
+				fmt.Printf("DEBUG loadStart start=%s unfolded=%T %s stack=%d\n", sym(start), u.v, sym(u.v), len(u.stack))
+			}
+			if b, ok := u.v.(*ssa.BinOp); ok && b.Op == token.ADD {
+				if debugOn() {
+					x := unfold(u.with(b.X))
+					fmt.Printf("DEBUG loadStart X=%T %s top=%v isLat=%v\n", x.v, sym(x.v), x.top(), m.isLatNum(stripNum(x.v)))
+				}
+				if n, ok := constInt(b.Y); ok && n == 1 {
+					x := unfold(u.with(b.X))
+					if x.top() && m.isLatNum(stripNum(x.v)) {
+						okStart = true
+					}
+					// the number member of the position value latest() handed out
+					if base, path, ok := memberPath(u.with(b.X)); ok && base.top() && len(path) == 1 && m.isLatPosition(base.v) {
+						if st, isSt := base.v.Type().Underlying().(*types.Struct); isSt && isIntType(st.Field(path[0]).Type()) {
+							okStart = true
+						}
+					}
+				}
+			}
+		}
+	}
 	// … or the whole position is handed to load, which derives the start itself: num + 1 of that parameter
 	posArg := -1
 	for i, a := range ld.Call.Args {
